@@ -25,6 +25,10 @@ def run_lines(drv, cfg, items, extra_ops=()):
     # configuration object so that the witness ops the monitor builds afterwards reproduce it
     _NOISE[0] += 1
     cfg['noise'] = (_NOISE[0] % 4 == 0)
+    # every twelfth batch runs on a calculator constructed through load_from_json from the shipped configuration text (plus the date
+    # patterns default() registers): the other public constructor must give the same calculator; the batch after it gets a new default one
+    cfg['json_built'] = (_NOISE[0] % 12 == 5)
+    cfg['restore_default'] = (_NOISE[0] % 12 == 6)
     cops = gh.config_ops(cfg) + list(extra_ops)
     ops = cops + [{'op': 'execute', 'lang': lang, 'text': text} for (lang, text) in items]
     rs = drv.run(ops)
